@@ -315,13 +315,13 @@ pub extern "sysv64" fn memory_write_word(areas: *mut MemoryAreas, addr: u16, val
   let low = (value & 0xff) as u8;
   let high = (value >> 8) as u8;
   memory_write_byte(areas, addr, low);
-  memory_write_byte(areas, addr + 1, high);
+  memory_write_byte(areas, addr.wrapping_add(1), high);
 }
 
 #[inline(never)]
 pub extern "sysv64" fn memory_read_word(areas: *mut MemoryAreas, addr: u16) -> u16 {
   let low = memory_read_byte(areas, addr) as u16;
-  let high = memory_read_byte(areas, addr + 1) as u16;
+  let high = memory_read_byte(areas, addr.wrapping_add(1)) as u16;
   (high << 8) | low
 }
 
